@@ -804,5 +804,38 @@ func GenLSpec(r *Rng, o LGenOpts) *LSpec {
 			ru.Acts = acts
 		}
 	}
+	if len(s.Modes) > 2 && r.Chance(1, 3) {
+		// a DECLARED mode that no rule ever pushes, sorting before a mode that is pushed (mode numbers count the
+		// declared modes, not the used ones): the mode with the smallest name becomes dead, the one with the
+		// largest name is pushed by a rule of the default mode
+		dead, last := 1, 1
+		for k := 2; k < len(s.Modes); k++ {
+			if s.Modes[k].Name < s.Modes[dead].Name {
+				dead = k
+			}
+			if s.Modes[k].Name > s.Modes[last].Name {
+				last = k
+			}
+		}
+		if dead != last {
+			pushed := false
+			for k, m := range s.Modes {
+				for _, ru := range m.Rules {
+					for i := range ru.Acts {
+						if ru.Acts[i].Kind == "push" && ru.Acts[i].Mode == dead {
+							ru.Acts[i].Mode = last
+						}
+						if k == 0 && ru.Acts[i].Kind == "push" && ru.Acts[i].Mode == last {
+							pushed = true
+						}
+					}
+				}
+			}
+			if !pushed {
+				ru := s.Modes[0].Rules[0]
+				ru.Acts = append([]LAct{{Kind: "push", Mode: last}}, ru.Acts...)
+			}
+		}
+	}
 	return s
 }
